@@ -48,8 +48,9 @@ ASSUMPTIONS = [
     "9-digit decimals; see DESIGN.md section 4)",
     "not modelled: __format__ with a spec, __repr__, pickling, float "
     "elements inside terms, datetime as validity, a subclass quantity as the "
-    "defining quantity of a parent-type unit, multiples of units of a type "
-    "without reference unit, units declared directly on Quantity",
+    "defining quantity of a parent-type unit, units declared directly on "
+    "Quantity; the stored scale of a unit defined over a definition-less "
+    "unit is compared between model and code only (it denotes nothing)",
 ]
 
 
